@@ -83,34 +83,43 @@ def parse_macro_arms(src):
     body, span, _ = src.item_block(r'macro_rules!\s*bits_decode\s*')
     arms = {}
     general_ok = False
+    list_ok = False
+    consumed = []
     i = 0
     n = len(body)
     while i < n:
         # next arm: pattern delimiter ( or [
+        start = i
         while i < n and body[i] not in '([':
             i += 1
         if i >= n:
+            consumed.append(body[start:])
             break
+        consumed.append(body[start:i])
         o = body[i]
         j = match_close(body, i, o, ')' if o == '(' else ']')
         pat = body[i + 1:j]
         k = body.find('=>', j)
-        if k < 0:
+        if k < 0 or body[j + 1:k].strip() != '':
             raise AnchorLost('macro arm without =>')
         e0 = body.find('{', k)
+        if e0 < 0 or body[k + 2:e0].strip() != '':
+            raise AnchorLost('macro arm expansion')
         e1 = match_close(body, e0)
         exp = body[e0 + 1:e1]
         i = e1 + 1
+        sq = re.sub(r'\s+', '', exp)
         if re.search(r'\$\(\s*\$name:ident', pat):
             # the outer list arm: const $name: HuffmanDecoder = bits_decode!( $( $value )* );
-            if not re.search(r'const\s+\$name\s*:\s*HuffmanDecoder\s*=\s*bits_decode!\(\s*\$\(\s*\$value\s*\)\*\s*\)', exp):
+            if list_ok or sq != '$(const$name:HuffmanDecoder=bits_decode!($($value)*);)*' or \
+               re.sub(r'\s+', '', pat) != '$($name:ident=>($($value:tt)*),)*':
                 raise AnchorLost('bits_decode list arm')
+            list_ok = True
             continue
         if 'lookup:' in pat:
-            ok_pat = re.fullmatch(r'\s*lookup:\s*\$count:expr,\s*\[\s*\$\(\$sym:expr,\)\*\s*\$\(=>\s*\$sub:ident,\)\*\s*\]\s*', pat)
-            ok_exp = re.search(r'lookup:\s*\$count,\s*table:\s*&\[\s*\$\(\s*DecodeValue::Sym\(\$sym\),\s*\)\*\s*'
-                               r'\$\(\s*DecodeValue::Partial\(&\$sub\),\s*\)\*\s*\]', exp)
-            if not (ok_pat and ok_exp):
+            ok_pat = re.sub(r'\s+', '', pat) == 'lookup:$count:expr,[$($sym:expr,)*$(=>$sub:ident,)*]'
+            ok_exp = sq == 'HuffmanDecoder{lookup:$count,table:&[$(DecodeValue::Sym($sym),)*$(DecodeValue::Partial(&$sub),)*]}'
+            if general_ok or not (ok_pat and ok_exp):
                 raise AnchorLost('bits_decode general arm')
             general_ok = True
             continue
@@ -125,12 +134,15 @@ def parse_macro_arms(src):
                 names.append(part[1][1].split(':')[0])
             else:
                 raise AnchorLost('bits_decode arm pattern: ' + pat.strip())
-        m = re.search(r'lookup:\s*(\w+)\s*,\s*table:\s*&\[(.*?)\]', exp, re.S)
+        if shape in arms:
+            # macro_rules! takes the FIRST matching arm: a second arm of the same shape is dead or shadows
+            raise AnchorLost('bits_decode: two arms of shape ' + shape)
+        m = re.fullmatch(r'HuffmanDecoder\{lookup:(\d+),table:&\[((?:DecodeValue::(?:Sym\(\$\w+\)|Partial\(&\$\w+\)),)*)\],?\}', sq)
         if not m:
-            raise AnchorLost('bits_decode arm expansion')
+            raise AnchorLost('bits_decode arm expansion of shape ' + shape)
         lookup = parse_int(m.group(1))
         order = []
-        for ent in re.finditer(r'DecodeValue::(Sym|Partial)\(\s*&?\s*(\$\w+)\s*\)', m.group(2)):
+        for ent in re.finditer(r'DecodeValue::(Sym|Partial)\(&?(\$\w+)\)', m.group(2)):
             kind, var = ent.group(1), ent.group(2)
             if var not in names:
                 raise AnchorLost('unknown macro variable ' + var)
@@ -138,9 +150,13 @@ def parse_macro_arms(src):
             if (kind == 'Sym') != (shape[idx] == 'S'):
                 raise AnchorLost('macro variable kind mismatch ' + var)
             order.append(idx)
+        if sorted(order) != list(range(len(names))):
+            raise AnchorLost('bits_decode arm of shape %s does not use every variable exactly once' % shape)
         arms[shape] = (lookup, order)
-    if not general_ok:
-        raise AnchorLost('bits_decode general arm not found')
+    if re.sub(r'[\s;]+', '', ''.join(consumed)) != '':
+        raise AnchorLost('bits_decode macro: text outside the recognised arms')
+    if not (general_ok and list_ok):
+        raise AnchorLost('bits_decode general / list arm not found')
     return arms, span
 
 
